@@ -180,6 +180,14 @@ Cases ==
         v \in Versions, e \in Errnos}
     \cup {[k |-> "apperr", v |-> v, t |-> "stat", d |-> "none", e |-> "-", code |-> cd] :
         v \in Versions, cd \in AppCodes}
+    \* a data request the handle's access mode does not allow (WRITE on a handle opened for
+    \* reading; READ on one opened for writing only - the v3/v4 open flags; v5/v6 name the access
+    \* by ACE masks and are exercised with the first): the file object itself refuses, with an
+    \* OSError that carries no errno (io.UnsupportedOperation): FAILURE, one reply, session alive
+    \cup {[k |-> "access", v |-> v, t |-> op, d |-> "none", e |-> "-", code |-> 0] :
+        v \in Versions, op \in {"write_rdonly"}}
+    \cup {[k |-> "access", v |-> v, t |-> op, d |-> "none", e |-> "-", code |-> 0] :
+        v \in Versions \cap {3, 4}, op \in {"read_wronly"}}
     \cup UNION {{[k |-> "unenc", v |-> v, t |-> t, d |-> "none", e |-> f, code |-> 0] :
                     v \in Versions, f \in FaultsOf(t)} : t \in UnencKinds}
 
@@ -197,6 +205,8 @@ Expected ==
     ELSE IF case.k = "unenc"
     THEN <<case.k, case.v, case.t, case.e, SentType(case.v, case.t, case.e),
            {"status_err", UnencRet(case.t)}>>
+    ELSE IF case.k = "access"
+    THEN <<case.k, case.v, case.t, FX.FAILURE>>
     ELSE <<case.k, case.v, case.code, Downgrade(case.code, case.v)>>
 
 Table == Emit => PrintT(Expected)
